@@ -368,6 +368,8 @@ def mutants(mb):
     mb.add_text("coerce-str-huge-int", C, "            try:\n                return str(data)  # type: ignore\n            except ValueError:  # int too large for decimal conversion\n                raise bad_type(data, cls)", "            return str(data)  # type: ignore", "C03.R1", "coerce")
     mb.add_text("coerce-none-unhashable-str", C, "        try:\n            if data is None or (isinstance(data, str) and data in STR_NONE_VALUES):\n                return None  # type: ignore\n        except TypeError:  # str subclass which is not hashable\n            pass\n        raise bad_type(data, cls)", "        if data is None or (isinstance(data, str) and data in STR_NONE_VALUES):\n            return None  # type: ignore\n        raise bad_type(data, cls)", "C03.R1", "coerce")
     mb.add_text("neg-dependent-guard-if-form", D, "                if f not in alias_by_name:  # field skipped for deserialization\n                    continue\n                for req in reqs:\n                    requiring[req].add(alias_by_name[f])", "                if f in alias_by_name:\n                    for req in reqs:\n                        requiring[req].add(alias_by_name[f])", negative=True)
+    mb.add_text("union-assert-flipped", M, "                error = merge_errors(error, err)\n        assert error is not None\n        raise error\n\n\n@dataclass\nclass ConversionMethod", "                error = merge_errors(error, err)\n        assert error is None\n        raise error\n\n\n@dataclass\nclass ConversionMethod", "C03.R1", "UnionMethod")
+    mb.add_text("discriminator-unknown-attr", M, "            return method.deserialize(Discriminated(self.alias, data))", "            return method.deserialize(Discriminated(self.name, data))", "C03.R1", "DiscriminatorMethod")
     # reverse of the fix: commits
     mb.add_text("literal-indexerror", M, "                    except (KeyError, TypeError):\n                        pass", "                    except IndexError:\n                        pass", "C03.R", "LiteralMethod")
     mb.add_text("literal-no-typeerror", M, "        except TypeError:\n            raise bad_type(data, *self.types)", "        except AttributeError:\n            raise bad_type(data, *self.types)", "C03.R", "LiteralMethod")
